@@ -10,7 +10,7 @@
 //        m <k> done|cut|skip  w=<class,...|->  n=<printed lines>  fr=<frame of the end marker>
 //     and one line
 //        e x=<program reached its end> nc=<raw statements that do not compile, replaced> fail=<`@! ..` lines of self-checking scenarios>
-//          stray=<warnings outside statements> vmend=<VMs ended>/<max stack index at end>
+//          stray=<warnings outside statements> vmend=<VMs that ended by themselves>/<max stack index at such an end> killed=<VMs destroyed mid-statement>
 //          stepbad=<instructions executed with stack index >= declared size> other=<markers of the 2nd thread>
 //          sentinel=<ok|...> host=<ok|exception class leaving the host's calls>
 //  mode 2 (argument `optable [flags]`): applies every operator / cast / index of
@@ -45,6 +45,7 @@
 #include <morfuse/Script/Game.h>
 #include <morfuse/Script/SimpleEntity.h>
 #include <morfuse/Script/StateScript.h>
+#include <morfuse/Script/ScriptOpcodes.h>
 #undef private
 #undef protected
 using namespace mfuse;
@@ -105,7 +106,26 @@ struct TagBuf : std::streambuf {
 static size_t g_vmEnds = 0, g_vmEndMax = 0, g_stepBad = 0;
 static void onStep(const void*, size_t, size_t idx, size_t size);
 static void onStep(const void* vm, size_t, size_t idx, size_t size) { if (!static_cast<const ScriptVM*>(vm)->m_bMarkStack && idx >= size) ++g_stepBad; }
-static void onEnd(const void*, size_t idx) { ++g_vmEnds; if (idx > g_vmEndMax) g_vmEndMax = idx; }
+// A thread that ends by itself (OP_DONE or the `end` command) must leave an empty operand stack.
+// A thread destroyed from outside, or by deleting itself, in the middle of a statement
+// legitimately dies with the operands of that statement still pending: counted apart.
+static size_t g_vmKilled = 0;
+static void onEnd(const void* vm, size_t idx)
+{
+    const ScriptVM* v = static_cast<const ScriptVM*>(vm);
+    bool normal = false;
+    const opval_t* pc = v->m_PrevCodePos;
+    if (pc) {
+        static const eventNum_t endNum = EventSystem::Get().FindNormalEventNum("end");
+        const opval_t op = *pc;
+        if (op == OP_DONE) normal = true;
+        else if (op >= OP_EXEC_CMD0 && op <= OP_EXEC_CMD5) { op_ev_t ev; std::memcpy(&ev, pc + 1, sizeof ev); normal = ev == (op_ev_t)endNum; }
+        else if (op == OP_EXEC_CMD_COUNT1) { op_ev_t ev; std::memcpy(&ev, pc + 1 + sizeof(op_parmNum_t), sizeof ev); normal = ev == (op_ev_t)endNum; }
+    }
+    if (!normal) { ++g_vmKilled; return; }
+    ++g_vmEnds;
+    if (idx > g_vmEndMax) g_vmEndMax = idx;
+}
 
 // ------------------------------------------------------------------ representative values
 // '%' is replaced by the variable prefix ("local." in scripts, "level." for the table dump)
@@ -312,9 +332,20 @@ static StmtText stmtText(const std::string& line)
     } else if (k == "C") {
         std::string c = tk.next();
         static const std::set<std::string> cmds = { "goto", "thread", "waitthread", "wait", "end" };
-        if (!cmds.count(c)) tk.bad = true;
-        st.body = c;
-        if (tk.more()) st.body += " " + exprText(tk, st.used);
+        static const std::map<std::string, const char*> kills = {
+            { "killd", "delete" }, { "killr", "remove" }, { "killi", "immediateremove" },
+            { "killdv", "delete" }, { "killrv", "remove" }, { "killiv", "immediateremove" } };
+        auto kit = kills.find(c);
+        if (kit != kills.end()) {
+            // the running thread calls (and waits for) a thread that destroys it, `depth` calls deep
+            const std::string depth = tk.more() ? exprText(tk, st.used) : std::string("1");
+            const std::string call = std::string("waitthread kill local \"") + kit->second + "\" " + depth;
+            st.body = c.back() == 'v' ? "local.t = (1 + (" + call + ")) * 2" : call;
+        } else {
+            if (!cmds.count(c)) tk.bad = true;
+            st.body = c;
+            if (tk.more()) st.body += " " + exprText(tk, st.used);
+        }
     } else tk.bad = true;
     if (tk.bad || tk.more()) st.ok = false;
     return st;
@@ -324,7 +355,35 @@ static const char* SUBS =
     "sub:\nprintln \"@T\"\nend\n"
     "waiter:\nwait 1000000000000\nend\n"
     "waiton local.e:\nlocal.e waittill \"never\"\nprintln \"@W\"\nend\n"
-    "selfkill:\nprintln \"@K\"\nlocal delete\nprintln \"never\"\nend\n";
+    "selfkill:\nprintln \"@K\"\nlocal delete\nprintln \"never\"\nend\n"
+    // deleted-by-callee family: the victim is destroyed by a thread it is (transitively) waiting for
+    "kill local.v local.how local.depth:\n"
+    "if (local.depth > 1) {\nlocal.r = waitthread kill local.v local.how (local.depth - 1)\nprintln \"@K back\"\nend local.r\n}\n"
+    "println \"@K\"\n"
+    "if (local.how == \"delete\") { local.v delete }\n"
+    "if (local.how == \"remove\") { local.v remove }\n"
+    "if (local.how == \"immediateremove\") { local.v immediateremove }\n"
+    "if (local.how == \"killclass\") { killclass ScriptThread }\n"
+    "if (local.how == \"removeclass\") { removeclass ScriptThread }\n"
+    "end 7\n"
+    "killlevel local.how local.depth:\nlocal.r = waitthread kill level.par local.how local.depth\nend local.r\n"
+    "notifier local.o local.depth:\n"
+    "if (local.depth > 1) {\nlocal.r = waitthread notifier local.o (local.depth - 1)\nprintln \"@N back\"\nend local.r\n}\n"
+    "local.o notify \"die\"\nprintln \"@N\"\nend 7\n"
+    "pausekill local.v local.how local.depth:\n"
+    "if (local.depth > 1) {\nthread pausekill local.v local.how (local.depth - 1)\nend\n}\n"
+    "local.v pause\n"
+    "if (local.how == \"delete\") { local.v delete }\n"
+    "if (local.how == \"remove\") { local.v remove }\n"
+    "if (local.how == \"immediateremove\") { local.v immediateremove }\n"
+    "println \"@P\"\nend 7\n"
+    "selfdel local.how local.depth:\n"
+    "if (local.depth > 1) {\nlocal.r = waitthread selfdel local.how (local.depth - 1)\nprintln \"@D back\"\nend local.r\n}\n"
+    "if (local.how == \"delete\") { local delete }\n"
+    "if (local.how == \"remove\") { local remove }\n"
+    "if (local.how == \"immediateremove\") { local immediateremove }\n"
+    "if (local.how == \"self\") { self delete }\n"
+    "println \"never\"\nend 7\n";
 
 // raw statements that do not compile on their own are replaced (only compilable programs are
 // the subject): the callback compiles a one-statement script
@@ -408,7 +467,7 @@ static void runCase(const std::string& id, const std::string& header, const std:
     if (showScript) { std::istringstream is(prog); std::string l; while (std::getline(is, l)) std::printf("# %s\n", l.c_str()); }
 
     g_log.clear();
-    g_vmEnds = g_vmEndMax = g_stepBad = 0;
+    g_vmEnds = g_vmEndMax = g_stepBad = g_vmKilled = 0;
     TagBuf ob('o'), wb('w'), eb('e'), db('d');
     std::ostream os(&ob), ws(&wb), es(&eb), ds(&db);
     std::string host = "ok";
@@ -491,8 +550,8 @@ static void runCase(const std::string& id, const std::string& header, const std:
         std::string sc;
         for (const std::string& c : strayClasses) { if (!sc.empty()) sc += ","; sc += c; }
         for (char& c : failText) if (c == ' ') c = '_';
-        std::printf("e x=%d nc=%d fail=%d%s%s stray=%d%s%s vmend=%zu/%zu stepbad=%zu other=%s sentinel=%s host=%s\n", reachedEnd ? 1 : 0, g_notCompilable, failed, failText.empty() ? "" : ":", failText.c_str(), stray, sc.empty() ? "" : ":", sc.c_str(),
-                    g_vmEnds, g_vmEndMax, g_stepBad, other.empty() ? "-" : other.c_str(), sentinel.c_str(), host.substr(0, 200).c_str());
+        std::printf("e x=%d nc=%d fail=%d%s%s stray=%d%s%s vmend=%zu/%zu killed=%zu stepbad=%zu other=%s sentinel=%s host=%s\n", reachedEnd ? 1 : 0, g_notCompilable, failed, failText.empty() ? "" : ":", failText.c_str(), stray, sc.empty() ? "" : ":", sc.c_str(),
+                    g_vmEnds, g_vmEndMax, g_vmKilled, g_stepBad, other.empty() ? "-" : other.c_str(), sentinel.c_str(), host.substr(0, 200).c_str());
         std::fflush(stdout);
         guarded([&] { e.director().Reset(); });
         mfuse::verif::vmStepHook = nullptr;
